@@ -638,13 +638,20 @@ func c10Sweep(c *Ctx) error {
 	// boundary values: every prefix (and a few case/space variants) of strings that the minifiers index into, placed
 	// into every kind of slot — length-guard off-by-ones only show on inputs of exactly the guarded length
 	bnd := 0
+	hangs := 0
 	runB := func(mt, doc string) {
+		if hangs >= 3 {
+			return // every hung call keeps a goroutine spinning: three witnesses are enough
+		}
 		in := []byte(doc)
-		crash := h.Safely(20*time.Second, func() {
+		crash := h.Safely(5*time.Second, func() {
 			m := c10Registry()
 			var w bytes.Buffer
 			_ = m.Minify(mt, &w, bytes.NewReader(in))
 		})
+		if strings.Contains(crash, "timeout") || strings.Contains(crash, "timed out") {
+			hangs++
+		}
 		bnd++
 		st.Count("boundary "+mt+" "+doc, true)
 		st.Tag("boundary")
@@ -699,6 +706,27 @@ func c10Sweep(c *Ctx) error {
 	for _, v := range prefixes("x=`a${b}c`+'\\x3C\\u{41}\\101'+/re[/]/g.test(y)?1e3:0x1F;class A{#p=1;static{}}", "<svg xmlns=\"http://www.w3.org/2000/svg\" viewBox=\"0 0 10.0 10\"><defs id=\"a\"/><style><![CDATA[a{b:c}]]></style></svg>", "<?xml version=\"1.0\"?><!DOCTYPE a [<!ENTITY x \"y\">]><a b=\"&#60;&amp;\"><![CDATA[ x ]]></a>", "{\"a\":[1.0e+2,-0.5,true,null,\"\\u0041\"]}") {
 		for _, mt := range []string{"application/javascript", "image/svg+xml", "text/xml", "application/json", "text/html", "text/css"} {
 			runB(mt, v)
+		}
+	}
+	// documents that END right behind a tag (or behind white space / comments behind it): the look-ahead loops of the html, xml
+	// and svg minifiers skip white space and comments until the next significant token and must stop at the end of the input
+	htmlTags := strings.Split("html head body title p div span a b i ul ol li dl dt dd table thead tbody tfoot tr td th colgroup col caption select optgroup option pre textarea script style iframe svg math template noscript q rt rp rb rtc ruby input button form br hr img meta link base label h1 section article", " ")
+	tails := []string{"", " ", "\n", "<!--c-->", " <!--c--> ", "<!--c--><!--d-->\n", "<!--", "<!", "</", "&", " \t\n "}
+	for _, tag := range htmlTags {
+		for _, pre := range []string{"", "<p>x ", "<!doctype html><html><head></head>"} {
+			for _, open := range []string{"<" + tag + ">", "</" + tag + ">", "<" + tag + " a=b>", "<" + tag + "/>"} {
+				for _, tail := range tails {
+					runB("text/html", pre+open+tail)
+				}
+			}
+		}
+	}
+	for _, mt := range []string{"text/xml", "image/svg+xml"} {
+		for _, open := range []string{"<a>", "</a>", "<a b='c'>", "<a/>", "<?p x?>", "<![CDATA[x]]>", "<!DOCTYPE a>", "<a>x ", "<a> "} {
+			for _, tail := range tails {
+				runB(mt, "<r>"+open+tail)
+				runB(mt, open+tail)
+			}
 		}
 	}
 	c.R.Note("boundary-value documents: %d", bnd)
